@@ -13,10 +13,8 @@ def main():
         build.ensure_lib(v)
     with ThreadPoolExecutor(8) as ex:
         list(ex.map(lambda ev: build.ensure_engine(ev[0], ev[1], extra_flags=['-DVERIF_VARIANT="%s"' % ev[1]]), need))
-    for p in PROPERTIES.values():
-        for j in p["jobs"]:
-            if j.get("setup"):
-                j["setup"]()
+    from .c17_fuzz import ensure_targets
+    ensure_targets()
     print("setup ok: %d variants, %d engines" % (len(variants), len(need)))
 
 
